@@ -5,19 +5,24 @@
 //! keys that are prefixes of each other, keys longer than every path-compression limit) is
 //! applied to the real trie and to a `BTreeSet<Vec<u8>>`; every observation the statement
 //! names (contains, len, keys, keys_with_prefix, accepts, longest_prefix) is compared with
-//! the model, after every mutation (contains(k) + len) and in a full audit at the end.
+//! the model, after every mutation (contains(k) + len + a sweep over every key touched so far)
+//! and in a full audit at the end.
 //!
 //! One scenario per target type / configuration preset.  For `ZiporaTrie` every preset has
-//! two families: `.grow` (insert + lookups only) and `.full` (insert + remove + lookups), so
-//! that a `remove` that does nothing in one strategy cannot hide what the insert-only paths
-//! of that strategy do.
+//! the families `.grow` (insert + lookups only), `.full` (insert + remove + lookups) and `.ext`
+//! (`.full` plus, behind per-run swarm switches, the rest of the public surface that must not
+//! change the set: `clone` and continued use of both copies, `shrink_to_fit`,
+//! `insert_and_get_node_id` as a third spelling of insert).  The wrapper types have one `/ext`
+//! scenario each (builders, token spellings, `with_config` variants, `clear` + reuse,
+//! `bulk_insert`, `from_trie`); `NestedTrieDawg/rebuild` re-runs `build_from_keys` on a structure in use.
+//! A `remove` / automaton view that does nothing in one strategy
+//! therefore cannot hide what the other paths of that strategy do.
 
 use std::collections::BTreeSet;
-use std::sync::Arc;
-use zipora::fsa::traits::{FiniteStateAutomaton, Trie};
+use zipora::fsa::traits::{FiniteStateAutomaton, PrefixIterable, StatisticsProvider, Trie};
 use zipora::fsa::{
-    CompressedSparseTrie, CompressionStrategy, CritBitTrie, DoubleArrayTrie, DoubleArrayTrieConfig, NestedLoudsTrie, NestedTrieDawg, NestingConfig, PatriciaTrie, SimpleDawg, StorageStrategy,
-    TrieStrategy, ZiporaTrie, ZiporaTrieConfig,
+    BitVectorType, CompressedSparseTrie, CompressionStrategy, ConcurrencyLevel, CritBitTrie, DawgConfig, DoubleArrayTrie, DoubleArrayTrieBuilder, DoubleArrayTrieConfig, FsaCacheConfig, NestedLoudsTrie,
+    NestedTrieDawg, NestingConfig, PatriciaTrie, RankSelectType, SimpleDawg, StorageStrategy, TrieStrategy, VersionManager, ZiporaTrie, ZiporaTrieConfig,
 };
 use zipora::memory::{SecureMemoryPool, SecurePoolConfig};
 use zipora::ParallelLoudsTrie;
@@ -26,7 +31,7 @@ use zsim_core::{CheckSpec, Run, Scenario, Tier};
 // ---------------------------------------------------------------------------------------
 // keys
 
-/// The global key table.  A run works on a palette of 4-8 of these.
+/// The global key table.  A run works on a palette of these (or of synthesised keys).
 fn key_table() -> Vec<Vec<u8>> {
     let rep = |b: u8, n: usize| vec![b; n];
     let cat = |a: &[u8], b: &[u8]| {
@@ -63,9 +68,20 @@ fn key_table() -> Vec<Vec<u8>> {
         rep(0xFF, 70),                   // 23
         rep(b'a', 255),                  // 24  longest key the LOUDS strategy takes
         rep(b'a', 256),                  // 25  LOUDS refuses this one with Err (documented in the error text)
+        // ---- exactly at the limits (16 / 32 / 64), and long keys that part in the middle with both tails going on
+        rep(b'a', 16),                                     // 26
+        rep(b'a', 32),                                     // 27
+        rep(b'a', 64),                                     // 28
+        rep(b'a', 40),                                     // 29  the branch point of the next two
+        cat(&cat(&rep(b'a', 40), b"b"), &rep(b'a', 10)),   // 30
+        cat(&cat(&rep(b'a', 40), b"c"), &rep(b'a', 10)),   // 31
+        cat(&cat(&rep(b'a', 40), b"b"), &rep(b'z', 10)),   // 32
+        cat(&rep(0xFF, 31), &[0x00]),                      // 33
     ]
 }
 const LONG_FROM: usize = 18;
+/// the small byte alphabet of synthesised keys
+const AB: [u8; 8] = [0x61, 0x62, 0x00, 0x01, 0x02, 0x79, 0x7a, 0xFF];
 
 /// Stable, address-free rendering of a key: printable ASCII as is, the rest as \xNN, runs of
 /// six or more equal bytes as {b*n}.
@@ -108,7 +124,13 @@ fn show_set(ks: &[Vec<u8>]) -> String {
 }
 
 // ---------------------------------------------------------------------------------------
-// the adapter: what each target type offers.  `None` = the type has no such method.
+// the adapter: what each target type offers.  `None` / `false` = the type has no such method.
+
+/// what a second spelling of `len` returned
+enum LenView {
+    N(usize),
+    Empty(bool),
+}
 
 trait Target {
     /// type name used in violation sites
@@ -130,6 +152,48 @@ trait Target {
     }
     fn longest_prefix(&self, _q: &[u8]) -> Option<Option<usize>> {
         None
+    }
+    // ---- other public spellings of the same observations (`v` selects one; None = use the primary)
+    fn contains_alt(&self, _k: &[u8], _v: u64) -> Option<(&'static str, bool)> {
+        None
+    }
+    fn len_alt(&self, _v: u64) -> Option<(&'static str, LenView)> {
+        None
+    }
+    fn keys_alt(&self, _v: u64) -> Option<(&'static str, Vec<Vec<u8>>)> {
+        None
+    }
+    fn prefix_alt(&self, _p: &[u8], _v: u64) -> Option<(&'static str, Vec<Vec<u8>>)> {
+        None
+    }
+    // ---- the rest of the public surface that bears on the set (`.ext` scenarios only)
+    /// `insert_and_get_node_id`
+    fn insert_node_id(&mut self, _k: &[u8]) -> Option<Result<(), String>> {
+        None
+    }
+    /// `Clone::clone`
+    fn fork(&self) -> Option<Box<dyn Target>> {
+        None
+    }
+    /// `shrink_to_fit`: must not change the set
+    fn shrink(&mut self) -> bool {
+        false
+    }
+    /// `clear`: the set becomes empty, the structure stays usable
+    fn clear(&mut self) -> bool {
+        false
+    }
+    /// `build_from_keys` on a structure in use: the set becomes exactly `keys`
+    fn rebuild(&mut self, _keys: &[Vec<u8>]) -> Option<Result<(), String>> {
+        None
+    }
+    /// `bulk_insert`
+    fn bulk_insert(&mut self, _keys: &[Vec<u8>]) -> Option<Result<(), String>> {
+        None
+    }
+    /// `refresh_replicas`: must not change the set
+    fn refresh(&mut self) -> bool {
+        false
     }
     /// rare internal branches this run reached, read off public inspection methods
     fn reached(&self) -> Vec<&'static str> {
@@ -174,6 +238,45 @@ impl Target for Zt {
     fn longest_prefix(&self, q: &[u8]) -> Option<Option<usize>> {
         Some(self.t.longest_prefix(q))
     }
+    fn contains_alt(&self, k: &[u8], v: u64) -> Option<(&'static str, bool)> {
+        match v % 3 {
+            1 => Some(("lookup", <ZiporaTrie as Trie>::lookup(&self.t, k).is_some())),
+            2 => Some(("contains", <ZiporaTrie as Trie>::contains(&self.t, k))),
+            _ => None,
+        }
+    }
+    fn len_alt(&self, v: u64) -> Option<(&'static str, LenView)> {
+        match v % 4 {
+            1 => Some(("len", LenView::N(<ZiporaTrie as Trie>::len(&self.t)))),
+            2 => Some(("is_empty", LenView::Empty(if v % 8 < 4 { self.t.is_empty() } else { <ZiporaTrie as Trie>::is_empty(&self.t) }))),
+            3 => Some(("stats.num_keys", LenView::N(self.t.stats().num_keys))),
+            _ => None,
+        }
+    }
+    fn keys_alt(&self, v: u64) -> Option<(&'static str, Vec<Vec<u8>>)> {
+        match v % 3 {
+            1 => Some(("iter_all", self.t.iter_all().collect())),
+            2 => Some(("iter_all", <ZiporaTrie as PrefixIterable>::iter_all(&self.t).collect())),
+            _ => None,
+        }
+    }
+    fn prefix_alt(&self, p: &[u8], v: u64) -> Option<(&'static str, Vec<Vec<u8>>)> {
+        match v % 3 {
+            1 => Some(("iter_prefix", self.t.iter_prefix(p).collect())),
+            2 => Some(("iter_prefix", <ZiporaTrie as PrefixIterable>::iter_prefix(&self.t, p).collect())),
+            _ => None,
+        }
+    }
+    fn insert_node_id(&mut self, k: &[u8]) -> Option<Result<(), String>> {
+        Some(self.t.insert_and_get_node_id(k).map(|_| ()).map_err(|e| e.to_string()))
+    }
+    fn fork(&self) -> Option<Box<dyn Target>> {
+        Some(Box::new(Zt { t: self.t.clone(), ty: "ZiporaTrie(clone)" }))
+    }
+    fn shrink(&mut self) -> bool {
+        self.t.shrink_to_fit();
+        true
+    }
     fn reached(&self) -> Vec<&'static str> {
         let mut v = vec![];
         if let TrieStrategy::DoubleArray { .. } = self.t.config().trie_strategy {
@@ -195,10 +298,10 @@ impl Target for Zt {
     }
 }
 
-/// The three legacy wrapper structs share one shape: insert / contains / len + the FSA view.
+/// The three legacy wrapper structs share one shape: insert / contains / lookup / len / is_empty /
+/// stats + the FSA view.
 macro_rules! wrapper_target {
     ($name:ident, $inner:ty, $tyname:expr) => {
-        struct $name($inner);
         impl Target for $name {
             fn ty(&self) -> &'static str {
                 $tyname
@@ -207,7 +310,7 @@ macro_rules! wrapper_target {
                 if variant % 4 == 0 {
                     <$inner as Trie>::insert(&mut self.0, k).map(|_| ()).map_err(|e| e.to_string())
                 } else {
-                    self.0.insert(k).map_err(|e| e.to_string())
+                    self.insert_inherent(k, variant)
                 }
             }
             fn contains(&self, k: &[u8]) -> bool {
@@ -221,6 +324,25 @@ macro_rules! wrapper_target {
             }
             fn longest_prefix(&self, q: &[u8]) -> Option<Option<usize>> {
                 Some(self.0.longest_prefix(q))
+            }
+            fn contains_alt(&self, k: &[u8], v: u64) -> Option<(&'static str, bool)> {
+                match v % 4 {
+                    1 => Some(("lookup", self.0.lookup(k).is_some())),
+                    2 => Some(("lookup", <$inner as Trie>::lookup(&self.0, k).is_some())),
+                    3 => Some(self.contains_extra(k).unwrap_or(("contains", <$inner as Trie>::contains(&self.0, k)))),
+                    _ => None,
+                }
+            }
+            fn len_alt(&self, v: u64) -> Option<(&'static str, LenView)> {
+                match v % 4 {
+                    1 => Some(("len", LenView::N(<$inner as Trie>::len(&self.0)))),
+                    2 => Some(("is_empty", LenView::Empty(if v % 8 < 4 { self.0.is_empty() } else { <$inner as Trie>::is_empty(&self.0) }))),
+                    3 => Some(("stats.num_keys", LenView::N(self.0.stats().num_keys))),
+                    _ => None,
+                }
+            }
+            fn shrink(&mut self) -> bool {
+                self.shrink_inherent()
             }
             fn reached(&self) -> Vec<&'static str> {
                 Reached::reached(&self.0)
@@ -254,6 +376,57 @@ impl Reached for DoubleArrayTrie {
         v
     }
 }
+
+struct Dat(DoubleArrayTrie);
+impl Dat {
+    fn insert_inherent(&mut self, k: &[u8], _v: u64) -> Result<(), String> {
+        self.0.insert(k).map_err(|e| e.to_string())
+    }
+    fn contains_extra(&self, _k: &[u8]) -> Option<(&'static str, bool)> {
+        None
+    }
+    fn shrink_inherent(&mut self) -> bool {
+        self.0.shrink_to_fit();
+        true
+    }
+}
+struct Nlt(NestedLoudsTrie<()>);
+impl Nlt {
+    fn insert_inherent(&mut self, k: &[u8], _v: u64) -> Result<(), String> {
+        self.0.insert(k).map_err(|e| e.to_string())
+    }
+    fn contains_extra(&self, _k: &[u8]) -> Option<(&'static str, bool)> {
+        None
+    }
+    fn shrink_inherent(&mut self) -> bool {
+        false
+    }
+}
+/// `CompressedSparseTrie` with, optionally, the `*_with_token` spellings (tokens from a `VersionManager`
+/// of the same concurrency level; where the manager refuses a token the plain spelling is used).
+struct Cst(CompressedSparseTrie, Option<VersionManager>);
+impl Cst {
+    fn insert_inherent(&mut self, k: &[u8], v: u64) -> Result<(), String> {
+        if let (Some(vm), true) = (&self.1, v % 4 == 1) {
+            if let Ok(tok) = vm.acquire_writer_token() {
+                return self.0.insert_with_token(k, &tok).map_err(|e| e.to_string());
+            }
+        }
+        self.0.insert(k).map_err(|e| e.to_string())
+    }
+    fn contains_extra(&self, k: &[u8]) -> Option<(&'static str, bool)> {
+        let vm = self.1.as_ref()?;
+        let tok = vm.acquire_reader_token().ok()?;
+        if k.len() % 2 == 0 {
+            Some(("contains_with_token", self.0.contains_with_token(k, &tok)))
+        } else {
+            Some(("lookup_with_token", self.0.lookup_with_token(k, &tok).is_some()))
+        }
+    }
+    fn shrink_inherent(&mut self) -> bool {
+        false
+    }
+}
 wrapper_target!(Dat, DoubleArrayTrie, "DoubleArrayTrie");
 wrapper_target!(Nlt, NestedLoudsTrie<()>, "NestedLoudsTrie");
 wrapper_target!(Cst, CompressedSparseTrie, "CompressedSparseTrie");
@@ -278,6 +451,27 @@ impl Target for Dawg {
     fn longest_prefix(&self, q: &[u8]) -> Option<Option<usize>> {
         Some(self.0.longest_prefix(q))
     }
+    fn contains_alt(&self, k: &[u8], v: u64) -> Option<(&'static str, bool)> {
+        match v % 2 {
+            1 => Some(("lookup", <NestedTrieDawg as Trie>::lookup(&self.0, k).is_some())),
+            _ => None,
+        }
+    }
+    fn len_alt(&self, v: u64) -> Option<(&'static str, LenView)> {
+        match v % 4 {
+            1 => Some(("statistics.num_keys", LenView::N(self.0.statistics().num_keys))),
+            2 => Some(("is_empty", LenView::Empty(<NestedTrieDawg as Trie>::is_empty(&self.0)))),
+            3 => Some(("stats.num_keys", LenView::N(<NestedTrieDawg as StatisticsProvider>::stats(&self.0).num_keys))),
+            _ => None,
+        }
+    }
+    fn clear(&mut self) -> bool {
+        self.0.clear();
+        true
+    }
+    fn rebuild(&mut self, keys: &[Vec<u8>]) -> Option<Result<(), String>> {
+        Some(self.0.build_from_keys(keys.iter()).map_err(|e| e.to_string()))
+    }
 }
 
 struct SDawg(SimpleDawg);
@@ -296,9 +490,10 @@ impl Target for SDawg {
     }
 }
 
-/// `ParallelLoudsTrie`, sequential subset only (insert / contains / len): these three use a
-/// tokio mutex and nothing else, so a current-thread runtime drives them deterministically.
-/// The `parallel_*` queries run on rayon's pool, which no seam reaches: not driven.
+/// `ParallelLoudsTrie`, sequential subset only (insert / bulk_insert / contains / len / is_empty /
+/// refresh_replicas / from_trie): these use a tokio mutex and nothing else, so a current-thread
+/// runtime drives them deterministically.  The `parallel_*` queries run on rayon's pool, which no
+/// seam reaches: not driven.
 struct Par {
     rt: tokio::runtime::Runtime,
     t: ParallelLoudsTrie,
@@ -316,6 +511,19 @@ impl Target for Par {
     fn len(&self) -> usize {
         self.rt.block_on(self.t.len())
     }
+    fn len_alt(&self, v: u64) -> Option<(&'static str, LenView)> {
+        match v % 2 {
+            1 => Some(("is_empty", LenView::Empty(self.rt.block_on(self.t.is_empty())))),
+            _ => None,
+        }
+    }
+    fn bulk_insert(&mut self, keys: &[Vec<u8>]) -> Option<Result<(), String>> {
+        Some(self.rt.block_on(self.t.bulk_insert(keys.to_vec())).map(|_| ()).map_err(|e| e.to_string()))
+    }
+    fn refresh(&mut self) -> bool {
+        let _ = self.rt.block_on(self.t.refresh_replicas());
+        true
+    }
 }
 
 // ---------------------------------------------------------------------------------------
@@ -331,6 +539,8 @@ enum Kind {
     CritBitStringSpecialized,
     DoubleArrayConcurrentPreset,
     DoubleArrayCap256,
+    /// `.ext` only: every field of `ZiporaTrieConfig` drawn per run (working strategies only)
+    MixedConfig,
     AliasPatriciaTrie,
     AliasCritBitTrie,
     WrapDoubleArrayTrie,
@@ -338,8 +548,21 @@ enum Kind {
     WrapCompressedSparseTrie,
     DawgInsert,
     DawgBuildThenInsert,
+    /// build_from_keys on a structure in use, clear, and inserts only while the structure is not a built (merged) DAWG
+    DawgRebuild,
     SimpleDawg,
     ParallelSequential,
+}
+
+#[derive(Clone, Copy, PartialEq, Debug)]
+enum Fam {
+    /// insert + lookups
+    Grow,
+    /// insert + remove + lookups
+    Full,
+    /// `Full` (without remove and the automaton view for the LOUDS targets, whose remove / automaton view are
+    /// known stubs) + the extended public surface behind per-run switches
+    Ext,
 }
 
 impl Kind {
@@ -347,8 +570,11 @@ impl Kind {
         use Kind::*;
         matches!(
             self,
-            PatriciaDefault | PatriciaCacheOptimized | PatriciaShortPaths | LoudsSpaceOptimized | SparseOptimized | CritBitStringSpecialized | DoubleArrayConcurrentPreset | DoubleArrayCap256
+            PatriciaDefault | PatriciaCacheOptimized | PatriciaShortPaths | LoudsSpaceOptimized | SparseOptimized | CritBitStringSpecialized | DoubleArrayConcurrentPreset | DoubleArrayCap256 | MixedConfig
         )
+    }
+    fn is_louds(self) -> bool {
+        matches!(self, Kind::LoudsSpaceOptimized | Kind::WrapNestedLoudsTrie)
     }
     fn label(self) -> &'static str {
         use Kind::*;
@@ -361,6 +587,7 @@ impl Kind {
             CritBitStringSpecialized => "ZiporaTrie/critbit_string_specialized",
             DoubleArrayConcurrentPreset => "ZiporaTrie/double_array_concurrent_preset",
             DoubleArrayCap256 => "ZiporaTrie/double_array_cap256",
+            MixedConfig => "ZiporaTrie/mixed_config",
             AliasPatriciaTrie => "PatriciaTrie/new",
             AliasCritBitTrie => "CritBitTrie/new",
             WrapDoubleArrayTrie => "DoubleArrayTrie/new_or_with_config",
@@ -368,8 +595,21 @@ impl Kind {
             WrapCompressedSparseTrie => "CompressedSparseTrie/new",
             DawgInsert => "NestedTrieDawg/insert",
             DawgBuildThenInsert => "NestedTrieDawg/build_then_insert",
+            DawgRebuild => "NestedTrieDawg/rebuild",
             SimpleDawg => "SimpleDawg/insert",
             ParallelSequential => "ParallelLoudsTrie/sequential",
+        }
+    }
+    /// name of the `/ext` scenario of a non-ZiporaTrie kind
+    fn ext_label(self) -> &'static str {
+        use Kind::*;
+        match self {
+            WrapDoubleArrayTrie => "DoubleArrayTrie/ext",
+            WrapNestedLoudsTrie => "NestedLoudsTrie/ext",
+            WrapCompressedSparseTrie => "CompressedSparseTrie/ext",
+            DawgInsert => "NestedTrieDawg/ext",
+            ParallelSequential => "ParallelLoudsTrie/ext",
+            _ => unreachable!(),
         }
     }
     /// longest key (bytes) the palette may contain
@@ -378,17 +618,92 @@ impl Kind {
             // every insert clones the whole trie once per CPU: keep its nodes few
             Kind::ParallelSequential => 40,
             // no path compression to get past, and every symbol of a key costs several debug eprintln!s
-            Kind::DoubleArrayConcurrentPreset | Kind::DoubleArrayCap256 | Kind::WrapDoubleArrayTrie => 70,
+            Kind::DoubleArrayConcurrentPreset | Kind::DoubleArrayCap256 | Kind::WrapDoubleArrayTrie | Kind::MixedConfig => 70,
             _ => 1000,
         }
     }
 }
 
-fn build(kind: Kind, cfg: &zsim_core::Chan, cx: &mut Run) -> Box<dyn Target> {
+fn mixed_config(cfg: &zsim_core::Chan, cx: &mut Run) -> ZiporaTrieConfig {
+    let b = |c: &zsim_core::Chan| c.below(2) == 1;
+    let rs = |c: &zsim_core::Chan| match c.below(6) {
+        0 => RankSelectType::Adaptive,
+        1 => RankSelectType::Simple,
+        2 => RankSelectType::Interleaved256,
+        3 => RankSelectType::MixedIL256,
+        4 => RankSelectType::MixedXL256,
+        _ => RankSelectType::MixedXLBitPacked,
+    };
+    let storage = |c: &zsim_core::Chan, depth: u32| -> StorageStrategy {
+        fn leaf(c: &zsim_core::Chan, k: u64, rs: RankSelectType) -> StorageStrategy {
+            match k {
+                0 => StorageStrategy::Standard { initial_capacity: *c.pick(&[64usize, 0, 1, 1000]), growth_factor: *c.pick(&[2.0f64, 1.0, 1.5]) },
+                1 => StorageStrategy::Succinct {
+                    bit_vector_type: match c.below(4) {
+                        0 => BitVectorType::Standard,
+                        1 => BitVectorType::RankSelectOptimized,
+                        2 => BitVectorType::CacheAligned,
+                        _ => BitVectorType::Compressed,
+                    },
+                    rank_select_type: rs,
+                    interleaved_layout: c.below(2) == 1,
+                },
+                2 => StorageStrategy::CacheOptimized { cache_line_size: *c.pick(&[64usize, 0, 128]), numa_aware: c.below(2) == 1, prefetch_enabled: c.below(2) == 1 },
+                _ => StorageStrategy::PoolAllocated { pool: SecureMemoryPool::new(SecurePoolConfig::small_secure()).expect("pool"), size_class: *c.pick(&[1024usize, 0, 8]), chunk_size: *c.pick(&[4096usize, 0, 64]) },
+            }
+        }
+        let k = c.below(if depth == 0 { 5 } else { 4 });
+        if k == 4 {
+            StorageStrategy::Hybrid { primary: Box::new(leaf(c, c.below(4), RankSelectType::Simple)), secondary: Box::new(leaf(c, c.below(4), RankSelectType::Adaptive)), switch_threshold: *c.pick(&[0usize, 1, 4]) }
+        } else {
+            leaf(c, k, RankSelectType::Simple)
+        }
+    };
+    let trie_strategy = match cfg.below(3) {
+        0 => TrieStrategy::Patricia { max_path_length: *cfg.pick(&[64usize, 0, 1, 2, 16]), compression_threshold: *cfg.pick(&[4usize, 0, 1]), adaptive_compression: b(cfg) },
+        1 => TrieStrategy::DoubleArray { initial_capacity: *cfg.pick(&[256usize, 0, 1, 2, 3, 16]), growth_factor: *cfg.pick(&[1.5f64, 1.0, 2.0]), free_list_management: b(cfg), auto_shrink: b(cfg) },
+        _ => TrieStrategy::CompressedSparse { sparse_threshold: *cfg.pick(&[0.3f64, 0.0, 1.0]), compression_level: *cfg.pick(&[6u8, 0, 255]), adaptive_sparse: b(cfg) },
+    };
+    let compression_strategy = match cfg.below(5) {
+        0 => CompressionStrategy::None,
+        1 => CompressionStrategy::PathCompression { min_path_length: *cfg.pick(&[2usize, 0, 1]), max_path_length: *cfg.pick(&[32usize, 1, 2]), adaptive_threshold: b(cfg) },
+        2 => CompressionStrategy::FragmentCompression { fragment_size: *cfg.pick(&[8usize, 0, 1]), frequency_threshold: 0.1, dictionary_size: *cfg.pick(&[4096usize, 0, 1]) },
+        3 => CompressionStrategy::Hierarchical { levels: *cfg.pick(&[3usize, 0, 1]), compression_ratio: 0.7, adaptive_levels: b(cfg) },
+        _ => CompressionStrategy::Adaptive { strategies: vec![CompressionStrategy::None, CompressionStrategy::PathCompression { min_path_length: 1, max_path_length: 2, adaptive_threshold: false }], decision_threshold: *cfg.pick(&[0usize, 1, 8]) },
+    };
+    let c = ZiporaTrieConfig { trie_strategy, storage_strategy: storage(cfg, 0), compression_strategy, rank_select_type: rs(cfg), enable_simd: b(cfg), enable_concurrency: b(cfg), cache_optimization: b(cfg) };
+    let strat = match &c.trie_strategy {
+        TrieStrategy::Patricia { max_path_length, .. } => format!("Patricia(max_path_length={})", max_path_length),
+        TrieStrategy::DoubleArray { initial_capacity, .. } => format!("DoubleArray(initial_capacity={})", initial_capacity),
+        TrieStrategy::CompressedSparse { .. } => "CompressedSparse".to_string(),
+        _ => unreachable!(),
+    };
+    cx.ev(format!("config: mixed {} simd={} concurrency={} cache_optimization={}", strat, c.enable_simd, c.enable_concurrency, c.cache_optimization));
+    c
+}
+
+/// What `build` hands back: the target and the keys that are members from the start (builder paths).
+struct Built {
+    t: Box<dyn Target>,
+    preloaded: Vec<Vec<u8>>,
+}
+
+/// `init`: the keys a builder / `from_trie` start may be given (may contain duplicates, any order).
+fn build(kind: Kind, fam: Fam, cfg: &zsim_core::Chan, cx: &mut Run, init: &[Vec<u8>]) -> Option<Built> {
     use Kind::*;
-    let zt = |c: ZiporaTrieConfig, ty: &'static str| -> Box<dyn Target> { Box::new(Zt { t: ZiporaTrie::with_config(c), ty }) };
+    let ext = fam == Fam::Ext;
+    let plain = |t: Box<dyn Target>| Some(Built { t, preloaded: vec![] });
+    let zt = |c: ZiporaTrieConfig, ty: &'static str| -> Option<Built> { Some(Built { t: Box::new(Zt { t: ZiporaTrie::with_config(c), ty }), preloaded: vec![] }) };
     match kind {
-        PatriciaDefault => zt(ZiporaTrieConfig::default(), "ZiporaTrie"),
+        PatriciaDefault => {
+            if ext && cfg.below(3) != 0 {
+                // the two other public constructors of the same configuration
+                let t: ZiporaTrie = if cfg.below(2) == 0 { ZiporaTrie::new() } else { Default::default() };
+                plain(Box::new(Zt { t, ty: "ZiporaTrie" }))
+            } else {
+                zt(ZiporaTrieConfig::default(), "ZiporaTrie")
+            }
+        }
         PatriciaCacheOptimized => zt(ZiporaTrieConfig::cache_optimized(), "ZiporaTrie"),
         PatriciaShortPaths => {
             let mut c = ZiporaTrieConfig::default();
@@ -411,34 +726,149 @@ fn build(kind: Kind, cfg: &zsim_core::Chan, cx: &mut Run) -> Box<dyn Target> {
             c.trie_strategy = TrieStrategy::DoubleArray { initial_capacity: 256, growth_factor: 1.5, free_list_management: true, auto_shrink: false };
             zt(c, "ZiporaTrie")
         }
-        AliasPatriciaTrie => Box::new(Zt { t: PatriciaTrie::new(), ty: "PatriciaTrie" }),
-        AliasCritBitTrie => Box::new(Zt { t: CritBitTrie::new(), ty: "CritBitTrie" }),
+        MixedConfig => {
+            let c = mixed_config(cfg, cx);
+            zt(c, "ZiporaTrie")
+        }
+        AliasPatriciaTrie => plain(Box::new(Zt { t: PatriciaTrie::new(), ty: "PatriciaTrie" })),
+        AliasCritBitTrie => plain(Box::new(Zt { t: CritBitTrie::new(), ty: "CritBitTrie" })),
         WrapDoubleArrayTrie => {
-            if cfg.below(2) == 0 {
-                cx.ev("config: DoubleArrayTrie::new()");
-                Box::new(Dat(DoubleArrayTrie::new()))
-            } else {
-                let cap = *cfg.pick(&[1usize, 2, 16]);
-                cx.ev(format!("config: DoubleArrayTrie::with_config(initial_capacity={})", cap));
-                Box::new(Dat(DoubleArrayTrie::with_config(DoubleArrayTrieConfig { initial_capacity: cap, ..Default::default() })))
+            let how = cfg.below(if ext { 4 } else { 2 });
+            let dcfg = |c: &zsim_core::Chan| {
+                let cap = *c.pick(&[1usize, 2, 16]);
+                (cap, DoubleArrayTrieConfig { initial_capacity: cap, ..Default::default() })
+            };
+            match how {
+                0 => {
+                    cx.ev("config: DoubleArrayTrie::new()");
+                    plain(Box::new(Dat(DoubleArrayTrie::new())))
+                }
+                1 => {
+                    let (cap, c) = dcfg(cfg);
+                    cx.ev(format!("config: DoubleArrayTrie::with_config(initial_capacity={})", cap));
+                    plain(Box::new(Dat(DoubleArrayTrie::with_config(c))))
+                }
+                2 => {
+                    // the documented precondition of build_from_sorted: sorted input (made distinct as well)
+                    let mut keys = init.to_vec();
+                    keys.sort();
+                    keys.dedup();
+                    let b = if cfg.below(2) == 0 { DoubleArrayTrieBuilder::new() } else { DoubleArrayTrieBuilder::new_compact() };
+                    cx.ev(format!("DoubleArrayTrieBuilder::build_from_sorted({})", show_set(&keys)));
+                    match b.build_from_sorted(keys.clone()) {
+                        Ok(t) => Some(Built { t: Box::new(Dat(t)), preloaded: keys }),
+                        Err(e) => {
+                            cx.ev(format!("build_from_sorted -> Err({})", e));
+                            None
+                        }
+                    }
+                }
+                _ => {
+                    let (cap, c) = dcfg(cfg);
+                    cx.ev(format!("DoubleArrayTrieBuilder::with_config(initial_capacity={}).build_from_unsorted({})", cap, show_set(init)));
+                    match DoubleArrayTrieBuilder::with_config(c).build_from_unsorted(init.to_vec()) {
+                        Ok(t) => Some(Built { t: Box::new(Dat(t)), preloaded: init.to_vec() }),
+                        Err(e) => {
+                            cx.ev(format!("build_from_unsorted -> Err({})", e));
+                            None
+                        }
+                    }
+                }
             }
         }
         WrapNestedLoudsTrie => {
-            if cfg.below(2) == 0 {
-                cx.ev("config: NestedLoudsTrie::new()");
-                Box::new(Nlt(NestedLoudsTrie::<()>::new().expect("NestedLoudsTrie::new")))
-            } else {
-                let lv = *cfg.pick(&[1usize, 2, 5]);
-                cx.ev(format!("config: NestedLoudsTrie::with_config(max_levels={})", lv));
-                Box::new(Nlt(NestedLoudsTrie::<()>::with_config(NestingConfig { max_levels: lv, ..Default::default() }).expect("NestedLoudsTrie::with_config")))
+            let how = cfg.below(if ext { 4 } else { 2 });
+            let ncfg = |c: &zsim_core::Chan| {
+                let lv = *c.pick(&[1usize, 2, 5]);
+                (lv, NestingConfig { max_levels: lv, ..Default::default() })
+            };
+            match how {
+                0 => {
+                    cx.ev("config: NestedLoudsTrie::new()");
+                    plain(Box::new(Nlt(NestedLoudsTrie::<()>::new().expect("NestedLoudsTrie::new"))))
+                }
+                1 => {
+                    let (lv, c) = ncfg(cfg);
+                    cx.ev(format!("config: NestedLoudsTrie::with_config(max_levels={})", lv));
+                    plain(Box::new(Nlt(NestedLoudsTrie::<()>::with_config(c).expect("NestedLoudsTrie::with_config"))))
+                }
+                _ => {
+                    // keys the LOUDS strategy documents it refuses (> 255 bytes) are not given to the builder
+                    let keys: Vec<Vec<u8>> = init.iter().filter(|k| k.len() <= 255).cloned().collect();
+                    let r = if how == 2 {
+                        cx.ev(format!("NestedLoudsTrie::builder().build_from_iter({})", show_set(&keys)));
+                        NestedLoudsTrie::<()>::builder().build_from_iter(keys.clone())
+                    } else {
+                        let lv = *cfg.pick(&[1usize, 2, 5]);
+                        let c = NestingConfig::builder().max_levels(lv).cache_optimization(cfg.below(2) == 1).build().expect("NestingConfigBuilder::build");
+                        cx.ev(format!("NestedLoudsTrieBuilder::with_config(max_levels={}).build_from_iter({})", lv, show_set(&keys)));
+                        zipora::fsa::nested_louds_trie::NestedLoudsTrieBuilder::<()>::with_config(c).build_from_iter(keys.clone())
+                    };
+                    match r {
+                        Ok(t) => Some(Built { t: Box::new(Nlt(t)), preloaded: keys }),
+                        Err(e) => {
+                            cx.ev(format!("build_from_iter -> Err({})", e));
+                            None
+                        }
+                    }
+                }
             }
         }
-        WrapCompressedSparseTrie => Box::new(Cst(CompressedSparseTrie::new(zipora::fsa::ConcurrencyLevel::SingleThreadStrict).expect("CompressedSparseTrie::new"))),
-        DawgInsert | DawgBuildThenInsert => Box::new(Dawg(NestedTrieDawg::new().expect("NestedTrieDawg::new"))),
-        SimpleDawg => Box::new(SDawg(zipora::fsa::SimpleDawg::new())),
+        WrapCompressedSparseTrie => {
+            if !ext {
+                return plain(Box::new(Cst(CompressedSparseTrie::new(ConcurrencyLevel::SingleThreadStrict).expect("CompressedSparseTrie::new"), None)));
+            }
+            let level = *cfg.pick(&[ConcurrencyLevel::SingleThreadStrict, ConcurrencyLevel::SingleThreadShared, ConcurrencyLevel::OneWriteMultiRead, ConcurrencyLevel::MultiWriteMultiRead, ConcurrencyLevel::NoWriteReadOnly]);
+            let pooled = cfg.below(2) == 1;
+            let tokens = cfg.below(3) != 0;
+            cx.ev(format!("config: CompressedSparseTrie::{}({}) tokens={}", if pooled { "with_memory_pool" } else { "new" }, level, tokens));
+            let t = if pooled { CompressedSparseTrie::with_memory_pool(level, SecureMemoryPool::new(SecurePoolConfig::small_secure()).expect("pool")) } else { CompressedSparseTrie::new(level) }.expect("CompressedSparseTrie");
+            plain(Box::new(Cst(t, if tokens { Some(VersionManager::new(level)) } else { None })))
+        }
+        DawgInsert | DawgBuildThenInsert | DawgRebuild => {
+            if !(ext && kind == DawgInsert) {
+                return plain(Box::new(Dawg(NestedTrieDawg::new().expect("NestedTrieDawg::new"))));
+            }
+            // every field of DawgConfig; the dense table needs max_states * 1 KiB, so it only comes with few states
+            let dense = cfg.below(3) == 0;
+            let max_states = if dense { *cfg.pick(&[64usize, 4, 16]) } else { *cfg.pick(&[1_000_000usize, 4, 16, 300]) };
+            let cache = cfg.below(3);
+            let c = DawgConfig {
+                use_rank_select: cfg.below(2) == 0,
+                enable_cache: cache != 0,
+                cache_config: if cache == 2 { FsaCacheConfig { max_states: *cfg.pick(&[2usize, 3, 8]), ..if cfg.below(2) == 0 { FsaCacheConfig::memory_efficient() } else { FsaCacheConfig::small() } } } else { FsaCacheConfig::default() },
+                max_states,
+                compressed_storage: !dense,
+            };
+            cx.ev(format!("config: NestedTrieDawg::with_config(max_states={} dense={} cache={} cache_max_states={} rank_select={})", max_states, dense, c.enable_cache, c.cache_config.max_states, c.use_rank_select));
+            plain(Box::new(Dawg(NestedTrieDawg::with_config(c).expect("NestedTrieDawg::with_config"))))
+        }
+        SimpleDawg => plain(Box::new(SDawg(zipora::fsa::SimpleDawg::new()))),
         ParallelSequential => {
             let rt = tokio::runtime::Builder::new_current_thread().build().expect("runtime");
-            Box::new(Par { rt, t: ParallelLoudsTrie::new() })
+            let how = if ext { cfg.below(3) } else { 0 };
+            match how {
+                0 => plain(Box::new(Par { rt, t: ParallelLoudsTrie::new() })),
+                1 => plain(Box::new(Par { rt, t: Default::default() })),
+                _ => {
+                    // from_trie: a Patricia ZiporaTrie (what ParallelLoudsTrie::new() uses) that already has a history
+                    let mut z: ZiporaTrie = if cfg.below(2) == 0 { ZiporaTrie::new() } else { ZiporaTrie::with_config(ZiporaTrieConfig::cache_optimized()) };
+                    let mut members: Vec<Vec<u8>> = vec![];
+                    for k in init {
+                        if z.insert(k).is_ok() && !members.contains(k) {
+                            members.push(k.clone());
+                        }
+                    }
+                    let mut gone: Option<Vec<u8>> = None;
+                    if !members.is_empty() && cfg.below(2) == 1 {
+                        let k = members.remove(cfg.below(members.len() as u64) as usize);
+                        let _ = z.remove(&k);
+                        gone = Some(k);
+                    }
+                    cx.ev(format!("ParallelLoudsTrie::from_trie(ZiporaTrie with insert {} remove {})", show_set(init), gone.as_deref().map(show).unwrap_or_else(|| "-".into())));
+                    Some(Built { t: Box::new(Par { rt, t: ParallelLoudsTrie::from_trie(z) }), preloaded: members })
+                }
+            }
         }
     }
 }
@@ -446,17 +876,23 @@ fn build(kind: Kind, cfg: &zsim_core::Chan, cx: &mut Run) -> Box<dyn Target> {
 // ---------------------------------------------------------------------------------------
 // model + oracle
 
+#[derive(Clone)]
 struct Model {
     set: BTreeSet<Vec<u8>>,
     /// keys that were members at some time and are not now
     removed: BTreeSet<Vec<u8>>,
     /// the last mutation was a re-insert of a key that was already a member
     last_was_reinsert: bool,
+    /// the automaton view (accepts / longest_prefix / the transition-walking `lookup`) is not observed
+    noauto: bool,
 }
 
 impl Model {
     fn longest_prefix(&self, q: &[u8]) -> Option<usize> {
         (0..=q.len()).rev().find(|&n| self.set.contains(&q[..n]))
+    }
+    fn members(&self) -> String {
+        show_set(&self.set.iter().cloned().collect::<Vec<_>>())
     }
 }
 
@@ -470,15 +906,38 @@ enum Obs<'a> {
     Longest(&'a [u8]),
 }
 
-/// `quiet`: do not write an event line for a matching observation (used by the end audit).
-fn observe(t: &dyn Target, m: &Model, o: Obs, cx: &mut Run, quiet: bool) -> bool {
+/// How an observation is made and reported.
+#[derive(Clone, Copy)]
+struct How<'a> {
+    /// do not write an event line for a matching observation (sweeps, audits)
+    quiet: bool,
+    /// which public spelling of the observation (0 = the primary one)
+    spelling: u64,
+    /// appended to the detail text: what happened just before ("after shrink_to_fit", "snapshot", ...)
+    ctx: &'a str,
+    /// appended to the violation site: the extended operation this check follows directly ("" = none), so that
+    /// a finding about that operation is a different (class, site) from one about plain insert / remove
+    sfx: &'static str,
+}
+const LOUD: How<'static> = How { quiet: false, spelling: 0, ctx: "", sfx: "" };
+const QUIET: How<'static> = How { quiet: true, spelling: 0, ctx: "", sfx: "" };
+
+fn observe(t: &dyn Target, m: &Model, o: Obs, cx: &mut Run, how: How) -> bool {
     let ty = t.ty();
+    let quiet = how.quiet;
+    let ctx = if how.ctx.is_empty() { String::new() } else { format!(" [{}]", how.ctx) };
+    let sfx = how.sfx;
     match o {
         Obs::Contains(k) => {
-            let got = t.contains(k);
+            let alt = if how.spelling == 0 { None } else { t.contains_alt(k, how.spelling) };
+            let (name, got) = match alt {
+                Some((n, _)) if n == "lookup" && m.noauto => ("contains", t.contains(k)),
+                Some(x) => x,
+                None => ("contains", t.contains(k)),
+            };
             let want = m.set.contains(k);
             if !quiet {
-                cx.ev(format!("contains({}) -> {}", show(k), got));
+                cx.ev(format!("{}({}) -> {}", name, show(k), got));
             }
             if got != want {
                 let class = if want {
@@ -488,31 +947,42 @@ fn observe(t: &dyn Target, m: &Model, o: Obs, cx: &mut Run, quiet: bool) -> bool
                 } else {
                     "phantom_key"
                 };
-                cx.violate(class, &format!("{}.contains", ty), format!("contains({}) = {} but the key {} (members: {})", show(k), got, if want { "was inserted and not removed" } else if m.removed.contains(k) { "was removed" } else { "was never inserted" }, show_set(&m.set.iter().cloned().collect::<Vec<_>>())));
+                cx.violate(class, &format!("{}.{}{}", ty, name, sfx), format!("{}({}) = {} but the key {} (members: {}){}", name, show(k), got, if want { "was inserted and not removed" } else if m.removed.contains(k) { "was removed" } else { "was never inserted" }, m.members(), ctx));
                 return false;
             }
         }
         Obs::Len => {
-            let got = t.len();
+            let alt = if how.spelling == 0 { None } else { t.len_alt(how.spelling) };
+            let (name, view) = alt.unwrap_or_else(|| ("len", LenView::N(t.len())));
+            let (ok, shown) = match view {
+                LenView::N(n) => (n == m.set.len(), n.to_string()),
+                LenView::Empty(b) => (b == m.set.is_empty(), b.to_string()),
+            };
             if !quiet {
-                cx.ev(format!("len() -> {}", got));
+                cx.ev(format!("{}() -> {}", name, shown));
             }
-            if got != m.set.len() {
+            if !ok {
                 let class = if m.last_was_reinsert { "reinsert_changed_len" } else { "len_mismatch" };
-                cx.violate(class, &format!("{}.len", ty), format!("len() = {} but {} keys are inserted and not removed: {}", got, m.set.len(), show_set(&m.set.iter().cloned().collect::<Vec<_>>())));
+                cx.violate(class, &format!("{}.{}{}", ty, name, sfx), format!("{}() = {} but {} keys are inserted and not removed: {}{}", name, shown, m.set.len(), m.members(), ctx));
                 return false;
             }
         }
         Obs::Keys | Obs::Prefix(_) => {
             let (got, want, what, site): (Vec<Vec<u8>>, Vec<Vec<u8>>, String, String) = match o {
-                Obs::Keys => match t.keys() {
-                    Some(g) => (g, m.set.iter().cloned().collect(), "keys()".into(), format!("{}.keys", ty)),
-                    None => return true,
-                },
-                Obs::Prefix(p) => match t.keys_with_prefix(p) {
-                    Some(g) => (g, m.set.iter().filter(|k| k.starts_with(p)).cloned().collect(), format!("keys_with_prefix({})", show(p)), format!("{}.keys_with_prefix", ty)),
-                    None => return true,
-                },
+                Obs::Keys => {
+                    let alt = if how.spelling == 0 { None } else { t.keys_alt(how.spelling) };
+                    match alt.or_else(|| t.keys().map(|g| ("keys", g))) {
+                        Some((n, g)) => (g, m.set.iter().cloned().collect(), format!("{}()", n), format!("{}.{}{}", ty, n, sfx)),
+                        None => return true,
+                    }
+                }
+                Obs::Prefix(p) => {
+                    let alt = if how.spelling == 0 { None } else { t.prefix_alt(p, how.spelling) };
+                    match alt.or_else(|| t.keys_with_prefix(p).map(|g| ("keys_with_prefix", g))) {
+                        Some((n, g)) => (g, m.set.iter().filter(|k| k.starts_with(p)).cloned().collect(), format!("{}({})", n, show(p)), format!("{}.{}{}", ty, n, sfx)),
+                        None => return true,
+                    }
+                }
                 _ => unreachable!(),
             };
             // compared as a set: order and multiplicity are not promised
@@ -537,11 +1007,14 @@ fn observe(t: &dyn Target, m: &Model, o: Obs, cx: &mut Run, quiet: bool) -> bool
                 } else {
                     "enumeration_lists_phantom_key"
                 };
-                cx.violate(class, &site, format!("{} returned {} ; expected {} ; missing {} ; unexpected {}", what, show_set(&gs.iter().cloned().collect::<Vec<_>>()), show_set(&want), show_set(&missing), show_set(&extra)));
+                cx.violate(class, &site, format!("{} returned {} ; expected {} ; missing {} ; unexpected {}{}", what, show_set(&gs.iter().cloned().collect::<Vec<_>>()), show_set(&want), show_set(&missing), show_set(&extra), ctx));
                 return false;
             }
         }
         Obs::Accepts(k) => {
+            if m.noauto {
+                return true;
+            }
             let Some(got) = t.accepts(k) else { return true };
             let want = m.set.contains(k);
             if !quiet {
@@ -555,11 +1028,14 @@ fn observe(t: &dyn Target, m: &Model, o: Obs, cx: &mut Run, quiet: bool) -> bool
                 } else {
                     "accepts_phantom_key"
                 };
-                cx.violate(class, &format!("{}.accepts", ty), format!("accepts({}) = {} but contains must be {} (contains() says {})", show(k), got, want, t.contains(k)));
+                cx.violate(class, &format!("{}.accepts{}", ty, sfx), format!("accepts({}) = {} but contains must be {} (contains() says {}){}", show(k), got, want, t.contains(k), ctx));
                 return false;
             }
         }
         Obs::Longest(q) => {
+            if m.noauto {
+                return true;
+            }
             let Some(got) = t.longest_prefix(q) else { return true };
             let want = m.longest_prefix(q);
             if !quiet {
@@ -577,11 +1053,121 @@ fn observe(t: &dyn Target, m: &Model, o: Obs, cx: &mut Run, quiet: bool) -> bool
                     }
                     _ => "longest_prefix_too_short",
                 };
-                cx.violate(class, &format!("{}.longest_prefix", ty), format!("longest_prefix({}) = {:?} but the longest member that is a prefix has length {:?} (members: {})", show(q), got, want, show_set(&m.set.iter().cloned().collect::<Vec<_>>())));
+                cx.violate(class, &format!("{}.longest_prefix{}", ty, sfx), format!("longest_prefix({}) = {:?} but the longest member that is a prefix has length {:?} (members: {}){}", show(q), got, want, m.members(), ctx));
                 return false;
             }
         }
     }
+    true
+}
+
+/// After a mutation: the key itself and len (with event lines), then every key touched so far, quietly.
+fn check_after(t: &dyn Target, m: &Model, k: Option<&[u8]>, touched: &[Vec<u8>], cx: &mut Run, ctx: &str, sfx: &'static str) -> bool {
+    let loud = How { quiet: false, spelling: 0, ctx, sfx };
+    if let Some(k) = k {
+        if !observe(t, m, Obs::Contains(k), cx, loud) {
+            return false;
+        }
+    }
+    if !observe(t, m, Obs::Len, cx, loud) {
+        return false;
+    }
+    let quiet = How { quiet: true, spelling: 0, ctx, sfx };
+    for x in touched {
+        if !observe(t, m, Obs::Contains(x), cx, quiet) {
+            return false;
+        }
+    }
+    true
+}
+
+/// The full audit: every observable over the touched keys and their near misses, fixed order.
+fn audit(t: &dyn Target, m: &Model, touched: &[Vec<u8>], cx: &mut Run, tag: &str) -> bool {
+    let sfx = if tag.is_empty() { "" } else { "/set_aside_copy" };
+    let mut universe: BTreeSet<Vec<u8>> = BTreeSet::new();
+    for k in touched {
+        universe.insert(k.clone());
+        universe.insert(k[..k.len().saturating_sub(1)].to_vec());
+        universe.insert(k[..k.len() / 2].to_vec());
+        for b in [0x00u8, 0xFF] {
+            let mut v = k.clone();
+            v.push(b);
+            universe.insert(v);
+        }
+        if let Some(&last) = k.last() {
+            // the two siblings next to the last byte
+            for b in [last.wrapping_add(1), last.wrapping_sub(1)] {
+                let mut v = k.clone();
+                *v.last_mut().unwrap() = b;
+                universe.insert(v);
+            }
+        }
+    }
+    // concatenations of two members: what longest_prefix is for
+    let members: Vec<Vec<u8>> = m.set.iter().take(4).cloned().collect();
+    for a in &members {
+        for b in touched.iter().take(12) {
+            if a.len() + b.len() <= 300 {
+                let mut v = a.clone();
+                v.extend_from_slice(b);
+                universe.insert(v);
+            }
+        }
+    }
+    let q = How { quiet: true, spelling: 0, ctx: tag, sfx };
+    let mut n_checks = 0u64;
+    if !observe(t, m, Obs::Len, cx, q) {
+        return false;
+    }
+    for k in &universe {
+        n_checks += 1;
+        if !observe(t, m, Obs::Contains(k), cx, q) {
+            return false;
+        }
+    }
+    if !observe(t, m, Obs::Keys, cx, q) {
+        return false;
+    }
+    for k in &universe {
+        if k.len() <= 70 {
+            n_checks += 1;
+            if !observe(t, m, Obs::Prefix(k), cx, q) {
+                return false;
+            }
+        }
+    }
+    for k in &universe {
+        n_checks += 2;
+        if !observe(t, m, Obs::Accepts(k), cx, q) || !observe(t, m, Obs::Longest(k), cx, q) {
+            return false;
+        }
+    }
+    // the other public spellings, over the touched keys
+    for s in 1..=7u64 {
+        if !observe(t, m, Obs::Len, cx, How { spelling: s, ..q }) {
+            return false;
+        }
+    }
+    for s in 1..=2u64 {
+        if !observe(t, m, Obs::Keys, cx, How { spelling: s, ..q }) {
+            return false;
+        }
+    }
+    for (i, k) in touched.iter().enumerate() {
+        for s in 1..=3u64 {
+            n_checks += 1;
+            if !observe(t, m, Obs::Contains(k), cx, How { spelling: s, ..q }) {
+                return false;
+            }
+        }
+        if k.len() <= 70 {
+            n_checks += 1;
+            if !observe(t, m, Obs::Prefix(k), cx, How { spelling: 1 + (i as u64 % 2), ..q }) {
+                return false;
+            }
+        }
+    }
+    cx.ev(format!("audit{}: len, keys and {} lookups agree with the model ({} members)", if tag.is_empty() { String::new() } else { format!(" ({})", tag) }, n_checks, m.set.len()));
     true
 }
 
@@ -590,8 +1176,7 @@ fn observe(t: &dyn Target, m: &Model, o: Obs, cx: &mut Run, quiet: bool) -> bool
 
 struct Sc {
     kind: Kind,
-    /// remove is part of the workload
-    full: bool,
+    fam: Fam,
 }
 
 impl Sc {
@@ -601,6 +1186,15 @@ impl Sc {
     /// 100 CPU-seconds.  Scenarios whose every run ends at the first lookup (stub strategies) are cheap.
     fn quick_budget(&self) -> u64 {
         use Kind::*;
+        if self.fam == Fam::Ext {
+            return match self.kind {
+                ParallelSequential => 1_000,
+                DoubleArrayConcurrentPreset | DoubleArrayCap256 | WrapDoubleArrayTrie => 2_500,
+                MixedConfig => 5_000,
+                _ => 3_000,
+            };
+        }
+        let full = self.fam == Fam::Full;
         match self.kind {
             PatriciaDefault | PatriciaCacheOptimized | PatriciaShortPaths => 10_000,
             // the aliases are the very same type and constructor as patricia_default
@@ -608,28 +1202,117 @@ impl Sc {
             LoudsSpaceOptimized | CritBitStringSpecialized => 5_000,
             SparseOptimized => 10_000,
             DoubleArrayConcurrentPreset | DoubleArrayCap256 => {
-                if self.full {
+                if full {
                     4_000
                 } else {
                     10_000
                 }
             }
+            MixedConfig => 0,
             WrapDoubleArrayTrie => 10_000,
             WrapNestedLoudsTrie => 5_000,
             WrapCompressedSparseTrie => 10_000,
             DawgInsert | DawgBuildThenInsert => 8_000,
+            DawgRebuild => 5_000,
             SimpleDawg => 10_000,
             ParallelSequential => 2_000,
         }
     }
 }
 
+/// Per-run palette of keys.  Families: 0 = anything from the table, 1 = the "a.." chain, 2 = 0x00/0xFF keys,
+/// 3 = synthesised 1-4 bytes over a small alphabet, 4 = wide (many children of one parent, any byte value),
+/// 5 = derived (every key is a small edit of an earlier one: one byte longer / shorter / changed, or doubled).
+fn make_palette(cfg: &zsim_core::Chan, table: &[Vec<u8>], maxlen: usize) -> (Vec<Vec<u8>>, u64) {
+    let family = cfg.below(6);
+    let npal = if family == 4 { 6 + cfg.below(15) as usize } else { 3 + cfg.below(6) as usize };
+    let mut palette: Vec<Vec<u8>> = vec![];
+    let parent: Vec<u8> = if family == 4 { cfg.pick(&[vec![], b"a".to_vec(), vec![0xFF], b"ab".to_vec(), vec![0x00]]).clone() } else { vec![] };
+    for _ in 0..npal {
+        let k: Vec<u8> = if cfg.chance(1, if family == 4 { 10 } else { 5 }) {
+            table[LONG_FROM + cfg.below((table.len() - LONG_FROM) as u64) as usize].clone()
+        } else {
+            match family {
+                3 => {
+                    // many different states want the same slot (double array) / split the same node (everything else)
+                    let n = 1 + cfg.small(4) as usize;
+                    (0..n).map(|_| AB[cfg.below(8) as usize]).collect()
+                }
+                4 => {
+                    let mut v = parent.clone();
+                    match cfg.below(8) {
+                        0 => {}
+                        1 => {
+                            v.push(cfg.below(256) as u8);
+                            v.push(cfg.below(256) as u8);
+                        }
+                        _ => v.push(cfg.below(256) as u8),
+                    }
+                    v
+                }
+                5 if !palette.is_empty() => {
+                    let mut v = palette[cfg.below(palette.len() as u64) as usize].clone();
+                    let byte = if cfg.below(2) == 0 { AB[cfg.below(8) as usize] } else { cfg.below(256) as u8 };
+                    match cfg.below(5) {
+                        0 => v.push(byte),
+                        1 => {
+                            v.pop();
+                        }
+                        2 => {
+                            if let Some(l) = v.last_mut() {
+                                *l = byte;
+                            } else {
+                                v.push(byte);
+                            }
+                        }
+                        3 => {
+                            if v.is_empty() {
+                                v.push(byte);
+                            } else {
+                                let i = cfg.below(v.len() as u64) as usize;
+                                v[i] = byte;
+                            }
+                        }
+                        _ => {
+                            // doubling: lengths 2, 4, 8, 16, 32, 64 come up
+                            let w = v.clone();
+                            v.extend_from_slice(&w);
+                            if v.is_empty() {
+                                v.push(byte);
+                            }
+                        }
+                    }
+                    v
+                }
+                _ => {
+                    let pool: &[usize] = match family {
+                        1 => &[0, 1, 2, 3, 4, 16, 5, 6, 7],
+                        2 => &[8, 9, 10, 11, 12, 13, 14, 15, 17, 7],
+                        _ => &[0, 1, 2, 3, 4, 5, 6, 7, 8, 9, 10, 11, 12, 13, 14, 15, 16, 17],
+                    };
+                    table[pool[cfg.below(pool.len() as u64) as usize]].clone()
+                }
+            }
+        };
+        if k.len() <= maxlen && !palette.contains(&k) {
+            palette.push(k);
+        }
+    }
+    if palette.is_empty() {
+        palette.push(b"a".to_vec());
+    }
+    (palette, family)
+}
+
 impl Scenario for Sc {
     fn name(&self) -> String {
-        if self.kind.is_zipora_trie() || matches!(self.kind, Kind::AliasPatriciaTrie | Kind::AliasCritBitTrie) {
-            format!("{}.{}", self.kind.label(), if self.full { "full" } else { "grow" })
-        } else {
-            self.kind.label().to_string()
+        let zt = self.kind.is_zipora_trie() || matches!(self.kind, Kind::AliasPatriciaTrie | Kind::AliasCritBitTrie);
+        match (zt, self.fam) {
+            (true, Fam::Grow) => format!("{}.grow", self.kind.label()),
+            (true, Fam::Full) => format!("{}.full", self.kind.label()),
+            (true, Fam::Ext) => format!("{}.ext", self.kind.label()),
+            (false, Fam::Ext) => self.kind.ext_label().to_string(),
+            (false, _) => self.kind.label().to_string(),
         }
     }
     fn budget(&self, tier: Tier) -> u64 {
@@ -641,60 +1324,85 @@ impl Scenario for Sc {
     fn run(&self, cx: &mut Run) {
         let cfg = cx.src.chan("cfg");
         let table = key_table();
-        // ---- palette: 3-8 keys, mostly short, at most two long ones
-        let npal = 3 + cfg.below(6) as usize;
-        let mut palette: Vec<Vec<u8>> = vec![];
-        let family = cfg.below(4);
-        for _ in 0..npal {
-            let synth: Vec<u8>;
-            let k = if cfg.chance(1, 5) {
-                &table[LONG_FROM + cfg.below((table.len() - LONG_FROM) as u64) as usize]
-            } else if family == 3 {
-                // synthesised: 1-4 bytes over a small alphabet, so that many different states want the
-                // same slot (double array) / split the same node (everything else)
-                const AB: [u8; 8] = [0x61, 0x62, 0x00, 0x01, 0x02, 0x79, 0x7a, 0xFF];
-                let n = 1 + cfg.small(4) as usize;
-                synth = (0..n).map(|_| AB[cfg.below(8) as usize]).collect();
-                &synth
-            } else {
-                // families make shared prefixes likely: 0 = anything, 1 = the "a.." chain, 2 = 0x00/0xFF keys, 3 = synthesised (above)
-                let pool: &[usize] = match family {
-                    1 => &[0, 1, 2, 3, 4, 16, 5, 6, 7],
-                    2 => &[8, 9, 10, 11, 12, 13, 14, 15, 17, 7],
-                    _ => &[0, 1, 2, 3, 4, 5, 6, 7, 8, 9, 10, 11, 12, 13, 14, 15, 16, 17],
-                };
-                &table[pool[cfg.below(pool.len() as u64) as usize]]
-            };
-            if k.len() <= self.kind.max_key_len() && !palette.contains(k) {
-                palette.push(k.clone());
-            }
-        }
-        if palette.is_empty() {
-            palette.push(b"a".to_vec());
-        }
+        let ext = self.fam == Fam::Ext;
+        let noauto = ext && self.kind.is_louds();
+        let with_remove = self.fam == Fam::Full || (ext && !self.kind.is_louds());
+        let maxlen = self.kind.max_key_len();
+        let (palette, family) = make_palette(&cfg, &table, maxlen);
         let np = palette.len() as u64;
-        // ---- swarm weights: [insert, remove, contains, len, keys, prefix, accepts, longest]
-        let mut w: [u32; 8] = match cfg.below(3) {
+        // ---- swarm weights: [insert, remove, contains, len, keys, prefix, accepts, longest,
+        //                      clone, shrink_to_fit, clear, rebuild, bulk_insert, refresh_replicas]
+        let base: [u32; 8] = match cfg.below(3) {
             0 => [6, 3, 3, 1, 1, 1, 1, 1],
             1 => [4, 4, 1, 1, 2, 2, 2, 2],
             _ => [8, 1, 1, 0, 1, 1, 1, 1],
         };
-        if !self.full {
+        let mut w = [0u32; 14];
+        w[..8].copy_from_slice(&base);
+        if !with_remove {
             w[1] = 0;
         }
-        let mut t = build(self.kind, &cfg, cx);
+        if noauto {
+            w[6] = 0;
+            w[7] = 0;
+        }
+        // per-run switches of the extended surface (each on in half of the runs)
+        let mut x_nodeid = false;
+        if ext {
+            x_nodeid = cfg.below(2) == 1;
+            // [clone, shrink_to_fit, clear, -, bulk_insert, refresh_replicas]: only what the target type has
+            let zt = self.kind.is_zipora_trie();
+            let has = [zt, zt || self.kind == Kind::WrapDoubleArrayTrie, self.kind == Kind::DawgInsert, false, self.kind == Kind::ParallelSequential, self.kind == Kind::ParallelSequential];
+            for (i, &h) in has.iter().enumerate() {
+                if h && cfg.below(2) == 1 {
+                    w[8 + i] = 1;
+                }
+            }
+        }
+        if self.kind == Kind::DawgBuildThenInsert {
+            // this scenario already starts from build_from_keys: it also clears in mid-history (and goes on as a plain trie)
+            if cfg.below(2) == 1 {
+                w[10] = 1;
+            }
+        }
+        if self.kind == Kind::DawgRebuild {
+            w[10] = 1 + cfg.below(2) as u32;
+            w[11] = 2 + cfg.below(3) as u32;
+        }
+        // NestedTrieDawg/rebuild: the structure is a built (suffix-merged) DAWG; inserts wait until it is cleared
+        let mut built = false;
+        // what a builder / from_trie start is given: 0-4 palette keys, duplicates allowed
+        let mut init: Vec<Vec<u8>> = vec![];
+        if ext {
+            for _ in 0..cfg.below(5) {
+                init.push(palette[cfg.below(np) as usize].clone());
+            }
+        }
+        let Some(Built { mut t, preloaded }) = build(self.kind, self.fam, &cfg, cx, &init) else { return };
         let ty = t.ty();
-        let mut m = Model { set: BTreeSet::new(), removed: BTreeSet::new(), last_was_reinsert: false };
+        let mut m = Model { set: BTreeSet::new(), removed: BTreeSet::new(), last_was_reinsert: false, noauto };
         let mut ever: BTreeSet<Vec<u8>> = BTreeSet::new();
         let mut mutations = 0u64;
+        // every key a mutation was applied to, palette first (the sweep after each mutation and the audits go over these)
+        let mut touched: Vec<Vec<u8>> = palette.clone();
+        if ext {
+            for k in &preloaded {
+                m.set.insert(k.clone());
+                ever.insert(k.clone());
+            }
+            if !check_after(t.as_ref(), &m, None, &touched, cx, "a fresh structure", "/fresh") {
+                return;
+            }
+        }
 
         // NestedTrieDawg: optionally start from build_from_keys (its documented construction path)
         if self.kind == Kind::DawgBuildThenInsert {
             let n0 = 1 + cfg.below(3) as usize;
+            let dups = cfg.chance(1, 3);
             let mut init: Vec<Vec<u8>> = vec![];
             for _ in 0..n0 {
                 let k = palette[cfg.below(np) as usize].clone();
-                if !init.contains(&k) {
+                if dups || !init.contains(&k) {
                     init.push(k);
                 }
             }
@@ -710,20 +1418,22 @@ impl Scenario for Sc {
                 ever.insert(k.clone());
             }
             t = Box::new(Dawg(d));
-            if !observe(t.as_ref(), &m, Obs::Len, cx, false) {
+            if !observe(t.as_ref(), &m, Obs::Len, cx, LOUD) {
                 return;
             }
             for k in &init {
-                if !observe(t.as_ref(), &m, Obs::Contains(k), cx, false) {
+                if !observe(t.as_ref(), &m, Obs::Contains(k), cx, LOUD) {
                     return;
                 }
             }
         }
 
-        let planned = 3 + cfg.small(38);
+        let planned = if family == 4 { 8 + cfg.small(60) } else { 3 + cfg.small(38) };
         let mut ops = cx.src.ops("ops", planned);
         let wsum: u64 = w.iter().map(|&x| x as u64).sum();
         let mut prev_mut = "start";
+        // clones kept aside with the model of the moment they were taken (at most two)
+        let mut snaps: Vec<(Box<dyn Target>, Model, String)> = vec![];
         while let Some(o) = ops.next() {
             cx.steps += 1;
             // op kind by weight (a pure function of o[0], so that deleting an op shifts nothing)
@@ -738,7 +1448,7 @@ impl Scenario for Sc {
             }
             let pk = &palette[(o[1] % np) as usize];
             // query keys: a palette key, or a near miss of one
-            let q: Vec<u8> = match o[2] % 7 {
+            let q: Vec<u8> = match o[2] % 9 {
                 0 | 1 | 2 => pk.clone(),
                 3 => pk[..pk.len().saturating_sub(1)].to_vec(),
                 4 => {
@@ -751,69 +1461,120 @@ impl Scenario for Sc {
                     v.extend_from_slice(&palette[(o[3] % np) as usize]);
                     v
                 }
-                _ => pk[..pk.len() / 2].to_vec(),
+                6 => pk[..pk.len() / 2].to_vec(),
+                7 => {
+                    // a sibling: same length, last byte off by one bit
+                    let mut v = pk.clone();
+                    match v.last_mut() {
+                        Some(l) => *l ^= 1u8 << (o[3] % 8),
+                        None => v.push(o[3] as u8),
+                    }
+                    v
+                }
+                _ => {
+                    // same length, one byte somewhere off by one bit
+                    let mut v = pk.clone();
+                    if v.is_empty() {
+                        v.push(o[3] as u8);
+                    } else {
+                        let i = ((o[3] / 8) % v.len() as u64) as usize;
+                        v[i] ^= 1u8 << (o[3] % 8);
+                    }
+                    v
+                }
             };
+            // the key a mutation goes to: a palette key, one time in eight a near miss of one
+            let mk: Vec<u8> = if o[3] % 8 == 7 && q.len() <= maxlen { q.clone() } else { pk.clone() };
+            // which public spelling an observation uses (0 = the primary one, a third of the time)
+            let spelling = o[3] / 8;
             match kind {
                 0 => {
-                    let was = m.set.contains(pk);
-                    let r = t.insert(pk, o[2]);
+                    if built && self.kind == Kind::DawgRebuild {
+                        continue;
+                    }
+                    let was = m.set.contains(&mk);
+                    let mut name = "insert";
+                    let r = match if x_nodeid && o[2] % 4 == 1 { t.insert_node_id(&mk) } else { None } {
+                        Some(r) => {
+                            name = "insert_and_get_node_id";
+                            r
+                        }
+                        None => t.insert(&mk, o[2]),
+                    };
                     mutations += 1;
+                    if !touched.contains(&mk) && touched.len() < 40 {
+                        touched.push(mk.clone());
+                        cx.probe("mutated_a_near_miss_key");
+                    }
                     match r {
                         Ok(()) => {
-                            cx.ev(format!("insert({}) -> Ok{}", show(pk), if was { " (already a member)" } else { "" }));
+                            cx.ev(format!("{}({}) -> Ok{}", name, show(&mk), if was { " (already a member)" } else { "" }));
                             if was {
                                 cx.probe("reinsert_existing");
-                            } else if m.removed.contains(pk) {
+                            } else if m.removed.contains(&mk) {
                                 cx.probe("insert_after_remove");
                             }
-                            m.removed.remove(pk);
-                            m.set.insert(pk.clone());
-                            ever.insert(pk.clone());
+                            m.removed.remove(&mk);
+                            m.set.insert(mk.clone());
+                            ever.insert(mk.clone());
                             m.last_was_reinsert = was;
-                            if pk.is_empty() {
+                            if mk.is_empty() {
                                 cx.probe("empty_key_inserted");
                             }
-                            if pk.len() > 64 {
+                            if mk.len() > 64 {
                                 cx.probe("key_longer_than_64_inserted");
                             }
-                            if m.set.iter().any(|k| k != pk && (k.starts_with(pk) || pk.starts_with(k))) {
+                            if matches!(mk.len(), 16 | 32 | 64) {
+                                cx.probe("key_of_length_16_32_64_inserted");
+                            }
+                            if m.set.iter().any(|k| k != &mk && (k.starts_with(&mk) || mk.starts_with(k))) {
                                 cx.probe("member_is_prefix_of_member");
+                            }
+                            if m.set.len() > 8 {
+                                cx.probe("more_than_8_members");
                             }
                         }
                         Err(e) => {
                             // refusal: the model does not change, and the trie must not either
-                            cx.ev(format!("insert({}) -> Err({})", show(pk), e));
+                            cx.ev(format!("{}({}) -> Err({})", name, show(&mk), e));
                             cx.probe("insert_refused");
                             m.last_was_reinsert = false;
                         }
                     }
                     cx.cell(format!("{}/insert/{}>{}", ty, prev_mut, if was { "re" } else { "new" }));
                     prev_mut = if was { "reinsert" } else { "insert" };
-                    if !observe(t.as_ref(), &m, Obs::Contains(pk), cx, false) || !observe(t.as_ref(), &m, Obs::Len, cx, false) {
+                    if !check_after(t.as_ref(), &m, Some(&mk), &touched, cx, if name == "insert" { "" } else { "after insert_and_get_node_id" }, if name == "insert" { "" } else { "/after_insert_and_get_node_id" }) {
                         return;
                     }
                 }
                 1 => {
-                    let was = m.set.contains(pk);
-                    let Some(r) = t.remove(pk) else { continue };
+                    let was = m.set.contains(&mk);
+                    let Some(r) = t.remove(&mk) else { continue };
                     mutations += 1;
+                    if !touched.contains(&mk) && touched.len() < 40 {
+                        touched.push(mk.clone());
+                        cx.probe("mutated_a_near_miss_key");
+                    }
                     // the return value of remove is not part of the statement: recorded, not checked
                     match r {
-                        Ok(b) => cx.ev(format!("remove({}) -> Ok({}){}", show(pk), b, if was { "" } else { " (not a member)" })),
+                        Ok(b) => cx.ev(format!("remove({}) -> Ok({}){}", show(&mk), b, if was { "" } else { " (not a member)" })),
                         Err(e) => {
-                            cx.ev(format!("remove({}) -> Err({})", show(pk), e));
+                            cx.ev(format!("remove({}) -> Err({})", show(&mk), e));
                             cx.probe("remove_err");
                         }
                     }
                     if was {
                         cx.probe("remove_present");
-                        m.set.remove(pk);
-                        m.removed.insert(pk.clone());
-                        if m.set.iter().any(|k| k.starts_with(pk)) {
+                        m.set.remove(&mk);
+                        m.removed.insert(mk.clone());
+                        if m.set.iter().any(|k| k.starts_with(&mk)) {
                             cx.probe("removed_key_is_prefix_of_member");
                         }
-                        if m.set.iter().any(|k| pk.starts_with(k)) {
+                        if m.set.iter().any(|k| mk.starts_with(k)) {
                             cx.probe("removed_key_extends_member");
+                        }
+                        if m.set.is_empty() {
+                            cx.probe("became_empty_again");
                         }
                     } else {
                         cx.probe("remove_absent");
@@ -821,94 +1582,155 @@ impl Scenario for Sc {
                     m.last_was_reinsert = false;
                     cx.cell(format!("{}/remove/{}>{}", ty, prev_mut, if was { "present" } else { "absent" }));
                     prev_mut = "remove";
-                    if !observe(t.as_ref(), &m, Obs::Contains(pk), cx, false) || !observe(t.as_ref(), &m, Obs::Len, cx, false) {
+                    if !check_after(t.as_ref(), &m, Some(&mk), &touched, cx, "", "") {
                         return;
                     }
                 }
                 2 => {
-                    if !observe(t.as_ref(), &m, Obs::Contains(&q), cx, false) {
+                    if !observe(t.as_ref(), &m, Obs::Contains(&q), cx, How { spelling, ..LOUD }) {
                         return;
                     }
                 }
                 3 => {
-                    if !observe(t.as_ref(), &m, Obs::Len, cx, false) {
+                    if !observe(t.as_ref(), &m, Obs::Len, cx, How { spelling, ..LOUD }) {
                         return;
                     }
                 }
                 4 => {
-                    if !observe(t.as_ref(), &m, Obs::Keys, cx, false) {
+                    if !observe(t.as_ref(), &m, Obs::Keys, cx, How { spelling, ..LOUD }) {
                         return;
                     }
                 }
                 5 => {
-                    if !observe(t.as_ref(), &m, Obs::Prefix(&q), cx, false) {
+                    if !observe(t.as_ref(), &m, Obs::Prefix(&q), cx, How { spelling, ..LOUD }) {
                         return;
                     }
                 }
                 6 => {
-                    if !observe(t.as_ref(), &m, Obs::Accepts(&q), cx, false) {
+                    if !observe(t.as_ref(), &m, Obs::Accepts(&q), cx, LOUD) {
+                        return;
+                    }
+                }
+                7 => {
+                    if !observe(t.as_ref(), &m, Obs::Longest(&q), cx, LOUD) {
+                        return;
+                    }
+                }
+                8 => {
+                    // clone: both copies hold the set of this moment and are independent from now on
+                    let Some(mut c) = t.fork() else { continue };
+                    cx.probe("cloned");
+                    let keep_original = o[3] % 2 == 1;
+                    cx.ev(format!("clone() ; the history goes on with the {}", if keep_original { "original" } else { "clone" }));
+                    if !check_after(c.as_ref(), &m, None, &touched, cx, "a fresh clone", "/fresh_clone") || !observe(c.as_ref(), &m, Obs::Keys, cx, How { ctx: "a fresh clone", sfx: "/fresh_clone", ..QUIET }) {
+                        return;
+                    }
+                    if !keep_original {
+                        std::mem::swap(&mut t, &mut c);
+                    }
+                    let tag = format!("{} set aside at step {}", if keep_original { "clone" } else { "original" }, cx.steps);
+                    if snaps.len() == 2 {
+                        // make room: audit the oldest now
+                        let (st, sm, stag) = snaps.remove(0);
+                        if !audit(st.as_ref(), &sm, &touched, cx, &stag) {
+                            return;
+                        }
+                    }
+                    snaps.push((c, m.clone(), tag));
+                }
+                9 => {
+                    if !t.shrink() {
+                        continue;
+                    }
+                    cx.probe("shrunk");
+                    cx.ev("shrink_to_fit()");
+                    if !check_after(t.as_ref(), &m, None, &touched, cx, "after shrink_to_fit", "/after_shrink_to_fit") {
+                        return;
+                    }
+                }
+                10 => {
+                    if !t.clear() {
+                        continue;
+                    }
+                    cx.probe("cleared");
+                    built = false;
+                    cx.ev("clear()");
+                    mutations += 1;
+                    let old: Vec<Vec<u8>> = m.set.iter().cloned().collect();
+                    for k in old {
+                        m.removed.insert(k);
+                    }
+                    m.set.clear();
+                    m.last_was_reinsert = false;
+                    prev_mut = "clear";
+                    if !check_after(t.as_ref(), &m, None, &touched, cx, "after clear", "/after_clear") {
+                        return;
+                    }
+                }
+                11 | 12 => {
+                    // a batch of 1-4 palette keys, duplicates allowed (o[3] % np == 0 gives one key n times)
+                    let n = 1 + (o[0] / wsum) % 4;
+                    let mut batch: Vec<Vec<u8>> = (0..n).map(|i| palette[((o[1] + i * (o[3] % np)) % np) as usize].clone()).collect();
+                    if kind == 11 && o[2] % 2 == 1 {
+                        // rebuild from the present members plus the batch
+                        batch.extend(m.set.iter().cloned());
+                    }
+                    let r = if kind == 11 { t.rebuild(&batch) } else { t.bulk_insert(&batch) };
+                    let Some(r) = r else { continue };
+                    let name = if kind == 11 { "build_from_keys" } else { "bulk_insert" };
+                    mutations += 1;
+                    match r {
+                        Ok(()) => {
+                            cx.ev(format!("{}({}) -> Ok", name, show_set(&batch)));
+                            cx.probe(if kind == 11 { "rebuilt" } else { "bulk_inserted" });
+                            if kind == 11 {
+                                built = true;
+                                let old: Vec<Vec<u8>> = m.set.iter().cloned().collect();
+                                for k in old {
+                                    m.removed.insert(k);
+                                }
+                                m.set.clear();
+                            }
+                            for k in &batch {
+                                m.removed.remove(k);
+                                m.set.insert(k.clone());
+                                ever.insert(k.clone());
+                            }
+                        }
+                        Err(e) => {
+                            // a batch that fails half way leaves a state the statement says nothing about: stop here
+                            cx.ev(format!("{}({}) -> Err({})", name, show_set(&batch), e));
+                            cx.probe("batch_refused");
+                            return;
+                        }
+                    }
+                    m.last_was_reinsert = false;
+                    prev_mut = name;
+                    if !check_after(t.as_ref(), &m, None, &touched, cx, if kind == 11 { "after build_from_keys on a used structure" } else { "after bulk_insert" }, if kind == 11 { "/after_build_from_keys" } else { "/after_bulk_insert" }) {
                         return;
                     }
                 }
                 _ => {
-                    if !observe(t.as_ref(), &m, Obs::Longest(&q), cx, false) {
+                    if !t.refresh() {
+                        continue;
+                    }
+                    cx.ev("refresh_replicas()");
+                    if !check_after(t.as_ref(), &m, None, &touched, cx, "after refresh_replicas", "/after_refresh_replicas") {
                         return;
                     }
                 }
             }
         }
 
-        // ---- end audit: every observable over the palette and its near misses, fixed order
-        let mut universe: BTreeSet<Vec<u8>> = BTreeSet::new();
-        for k in &palette {
-            universe.insert(k.clone());
-            universe.insert(k[..k.len().saturating_sub(1)].to_vec());
-            universe.insert(k[..k.len() / 2].to_vec());
-            for b in [0x00u8, 0xFF] {
-                let mut v = k.clone();
-                v.push(b);
-                universe.insert(v);
-            }
-        }
-        // concatenations of two members: what longest_prefix is for
-        let members: Vec<Vec<u8>> = m.set.iter().take(4).cloned().collect();
-        for a in &members {
-            for b in &palette {
-                if a.len() + b.len() <= 300 {
-                    let mut v = a.clone();
-                    v.extend_from_slice(b);
-                    universe.insert(v);
-                }
-            }
-        }
-        let mut n_checks = 0u64;
-        if !observe(t.as_ref(), &m, Obs::Len, cx, true) {
+        // ---- end audit: every observable over the touched keys and their near misses, fixed order
+        if !audit(t.as_ref(), &m, &touched, cx, "") {
             return;
         }
-        for k in &universe {
-            n_checks += 1;
-            if !observe(t.as_ref(), &m, Obs::Contains(k), cx, true) {
+        for (st, sm, tag) in &snaps {
+            if !audit(st.as_ref(), sm, &touched, cx, tag) {
                 return;
             }
         }
-        if !observe(t.as_ref(), &m, Obs::Keys, cx, true) {
-            return;
-        }
-        for k in &universe {
-            if k.len() <= 70 {
-                n_checks += 1;
-                if !observe(t.as_ref(), &m, Obs::Prefix(k), cx, true) {
-                    return;
-                }
-            }
-        }
-        for k in &universe {
-            n_checks += 2;
-            if !observe(t.as_ref(), &m, Obs::Accepts(k), cx, true) || !observe(t.as_ref(), &m, Obs::Longest(k), cx, true) {
-                return;
-            }
-        }
-        cx.ev(format!("audit: len, keys and {} lookups agree with the model ({} members)", n_checks, m.set.len()));
         for p in t.reached() {
             cx.probe(p);
         }
@@ -920,7 +1742,7 @@ fn main() {
     let mut spec = CheckSpec::new(
         "C05",
         "exploration",
-        "seeded histories (E5: one client, no faults) of insert/remove/lookups over a per-run palette of 3-8 byte-string keys, compared step by step and in an end audit with a BTreeSet model; \
+        "seeded histories (E5: one client, no faults) of insert/remove/lookups over a per-run palette of 3-20 byte-string keys, compared step by step and in an end audit with a BTreeSet model; \
          non-trivial = at least 3 mutations and at least 2 distinct keys were members at some time; distinct = distinct hash of the (operation, observed result) trace plus mutation-bigram cells",
     );
     spec.assumptions = vec![
@@ -928,11 +1750,13 @@ fn main() {
         "keys() and keys_with_prefix() are compared as sets (order and multiplicity are not promised)".into(),
         "an Err from insert is a refusal: the model is left unchanged and the trie must then not contain the key".into(),
         "the return value of remove() is not checked".into(),
-        "ParallelLoudsTrie: only the sequential insert/contains/len are driven (tokio mutex on a current-thread runtime); its parallel_* queries run on rayon's pool, which no seam reaches".into(),
+        "ParallelLoudsTrie: only the sequential insert/bulk_insert/contains/len/is_empty/refresh_replicas/from_trie are driven (tokio mutex on a current-thread runtime); its parallel_* queries run on rayon's pool, which no seam reaches".into(),
+        "other public spellings of an observation the statement names are held to the same model: Trie::lookup(k).is_some() and the *_with_token spellings as contains, is_empty / stats().num_keys / statistics().num_keys as len, iter_all / iter_prefix as keys / keys_with_prefix".into(),
+        ".ext scenarios only: clone() yields a trie holding the same set, independent of the original; shrink_to_fit() and refresh_replicas() leave the set unchanged; clear() empties it; build_from_keys() on a used NestedTrieDawg replaces it; insert_and_get_node_id() and bulk_insert() are insert calls; a builder yields the set of the keys it was given".into(),
     ];
     spec.components = vec![
-        ("fsa::ZiporaTrie (all five TrieStrategy storages, six presets + two custom configs)", "real"),
-        ("fsa::{DoubleArrayTrie, NestedLoudsTrie, CompressedSparseTrie} wrappers, PatriciaTrie / CritBitTrie aliases", "real"),
+        ("fsa::ZiporaTrie (all five TrieStrategy storages, six presets + two custom configs + per-run drawn configs)", "real"),
+        ("fsa::{DoubleArrayTrie, NestedLoudsTrie, CompressedSparseTrie} wrappers and their builders, PatriciaTrie / CritBitTrie aliases", "real"),
         ("fsa::NestedTrieDawg, fsa::SimpleDawg", "real"),
         ("concurrency::ParallelLoudsTrie (sequential subset)", "real"),
         ("reference model", "BTreeSet<Vec<u8>>"),
@@ -943,11 +1767,15 @@ fn main() {
     spec.thorough_wall_s = 3600;
     use Kind::*;
     for kind in [PatriciaDefault, PatriciaCacheOptimized, PatriciaShortPaths, LoudsSpaceOptimized, SparseOptimized, CritBitStringSpecialized, DoubleArrayConcurrentPreset, DoubleArrayCap256, AliasPatriciaTrie, AliasCritBitTrie] {
-        spec.scenarios.push(Box::new(Sc { kind, full: false }));
-        spec.scenarios.push(Box::new(Sc { kind, full: true }));
+        spec.scenarios.push(Box::new(Sc { kind, fam: Fam::Grow }));
+        spec.scenarios.push(Box::new(Sc { kind, fam: Fam::Full }));
     }
-    for kind in [WrapDoubleArrayTrie, WrapNestedLoudsTrie, WrapCompressedSparseTrie, DawgInsert, DawgBuildThenInsert, SimpleDawg, ParallelSequential] {
-        spec.scenarios.push(Box::new(Sc { kind, full: false }));
+    for kind in [WrapDoubleArrayTrie, WrapNestedLoudsTrie, WrapCompressedSparseTrie, DawgInsert, DawgBuildThenInsert, DawgRebuild, SimpleDawg, ParallelSequential] {
+        spec.scenarios.push(Box::new(Sc { kind, fam: Fam::Grow }));
+    }
+    // the extended public surface
+    for kind in [PatriciaDefault, PatriciaCacheOptimized, LoudsSpaceOptimized, SparseOptimized, DoubleArrayConcurrentPreset, DoubleArrayCap256, MixedConfig, WrapDoubleArrayTrie, WrapNestedLoudsTrie, WrapCompressedSparseTrie, DawgInsert, ParallelSequential] {
+        spec.scenarios.push(Box::new(Sc { kind, fam: Fam::Ext }));
     }
     zsim_core::driver::main(spec);
 }
